@@ -98,22 +98,35 @@ Example C14_json_refuses_zero :
 Proof. vm_compute. reflexivity. Qed.
 
 (* The keys of the JSON model are those the serde attributes declare: coq/Generated/JsonSchema.v is rewritten from models.rs and amount.rs
-   on every run (the tag, the fields beside the flattened operation, every variant's action name and fields in declaration order with
-   their #[serde(default)] marks, the two keys CurrencyAmount writes); a renamed key, a new or dropped field or default breaks this theorem. *)
+   on every run (the tag, the fields beside the flattened operation, every variant's action name and fields with their #[serde(default)]
+   marks, the two keys CurrencyAmount writes).  The comparison is by sets - the order of variants and of fields in the source is immaterial
+   to JSON: every variant the source declares is one the model writes and conversely, under the same action name and with the same set of
+   keys, and a variant's defaulted keys are exactly the one key the model's reader treats as optional.  A renamed key, a new or dropped
+   variant, field or default breaks this theorem. *)
 Definition c14_m0 : money := {| m_amt := dec0; m_cur := GBP |}.
 Definition c14_ops : list dop :=
   [DBuy dec0 c14_m0 c14_m0; DSell dec0 c14_m0 c14_m0; DDividend c14_m0 c14_m0; DAccumulation dec0 c14_m0 c14_m0;
    DCapReturn dec0 c14_m0 c14_m0; DSplit dec0; DUnsplit dec0].
+Definition subset (a b : list text) : bool := forallb (fun k => existsb (teqb k) b) a.
+Definition same_set (a b : list text) : bool := subset a b && subset b a.
+Definition model_action (o : dop) : text := match jlookup K_ACTION (j_op o) with Some (JStr a) => a | _ => [] end.
+Definition model_keys (o : dop) : list text := map fst (j_op o).
+Definition model_optional (o : dop) : list text := if has_optional o then [last (model_keys o) []] else [].
+Definition declared_keys (e : string * list (string * bool)) : list text := T g_json_tag :: map (fun f => T (fst f)) (snd e).
+Definition declared_optional (e : string * list (string * bool)) : list text := map (fun f => T (fst f)) (filter snd (snd e)).
+Definition variant_matches (o : dop) (e : string * list (string * bool)) : bool :=
+  teqb (T (fst e)) (model_action o) && same_set (declared_keys e) (model_keys o) && same_set (declared_optional e) (model_optional o).
+Definition schema_agrees : bool :=
+  forallb (fun o => existsb (variant_matches o) g_json_ops) c14_ops &&
+  forallb (fun e => existsb (fun o => variant_matches o e) c14_ops) g_json_ops &&
+  Nat.eqb (List.length g_json_ops) (List.length c14_ops) &&
+  same_set (map T g_json_txn_fields) [K_DATE; K_TICKER] && same_set (map T g_json_money_fields) [K_AMOUNT; K_CURRENCY].
 Theorem C14_json_schema :
-  map (fun o => T g_json_tag :: map (fun f => T (fst f)) (snd o)) g_json_ops = map (fun o => map fst (j_op o)) c14_ops /\
-  map (fun o => Some (JStr (T (fst o)))) g_json_ops = map (fun o => jlookup K_ACTION (j_op o)) c14_ops /\
-  map (fun o => existsb snd (snd o)) g_json_ops = map has_optional c14_ops /\
-  map (fun o => map snd (removelast (snd o))) g_json_ops = map (fun o => map (fun _ => false) (removelast (snd o))) g_json_ops /\
-  map T g_json_txn_fields = [K_DATE; K_TICKER] /\ map T g_json_money_fields = [K_AMOUNT; K_CURRENCY] /\
+  schema_agrees = true /\
   (forall t, exists rest, to_json t = JObj ((K_DATE, JStr (print_date (x_date t))) :: (K_TICKER, JStr (x_tick t)) :: rest)) /\
   (forall m, exists a c, j_money m = JObj [(K_AMOUNT, a); (K_CURRENCY, c)]).
 Proof.
-  repeat split; try reflexivity.
+  split; [vm_compute; reflexivity|]. split.
   - intros t. eexists. reflexivity.
   - intros m. eexists. eexists. reflexivity.
 Qed.
